@@ -71,6 +71,16 @@ elif k == 'from_buffer':
             too_small = L < fixed * isz
             if too_small != (r == ('exc', 'ValueError')):
                 bad.append('from_buffer(%%r, <%%d bytes of itemsize %%d>) -> %%r' %% (ctype, L, E, r[0] if r[0] == 'ok' else r))
+elif k == 'buffer-new':
+    isz, n, size = case['itemsize'], case['n'], case['size']
+    t = {1: 'char', 4: 'int'}[isz]
+    p = ffi.new('%%s[%%d]' %% (t, max(n, 1))) if case['ckind'] == 'array' else ffi.cast(t + ' *', ffi.new('%%s[%%d]' %% (t, 16)))
+    if case['ckind'] == 'array' and n == 0:
+        p = ffi.cast('%%s[0]' %% t, 0) if False else ffi.new('%%s[]' %% t, 0)
+    b = ffi.buffer(p, size) if case['given'] else ffi.buffer(p)
+    want = size if case['given'] else (n * isz if case['ckind'] == 'array' else isz)
+    if len(b) != want:
+        bad.append('ffi.buffer(%%s%%s) has %%d bytes, expected %%d' %% (ffi.typeof(p).cname, (', %%d' %% size) if case['given'] else '', len(b), want))
 elif k == 'memmove':
     data = bytes(case['data']); d, s, n = case['dst'], case['src'], case['n']
     p = ffi.new('char[]', data)
@@ -325,6 +335,51 @@ def worker(args):
                 hutil.discharge(chk, ex, label + ':rejected=>too-small+ValueError',
                                 z3.And(too_small, z3.BoolVal(py.exc == 'PyExc_ValueError')), inputs, replay=rp, prefer=pf)
                 hutil.discharge(chk, ex, label + ':rejected=>exporter-released', py.info(x).get('exports', 0) == 0, inputs)
+    elif what[0] == 'buffer-new':
+        # ffi.buffer(cdata[, size]): the window is [c_data, c_data + size) with size = the explicit one (0 included), else the
+        # array's byte length / the pointed-to item's size
+        ckind, isz = what[1], what[2]
+
+        def h(ex):
+            py = pystubs.PyEnv(ex)
+            item = pystubs.new_ctype(ex, L, isz, F['CT_PRIMITIVE_SIGNED'] | F['CT_PRIMITIVE_FITS_LONG'])
+            ptr = pystubs.new_ctype(ex, L, 8, F['CT_POINTER'], itemdescr=item)
+            N = z3.BitVec('array_length', 64)
+            ex.assume(z3.And(N >= 0, N <= (1 << 40)))
+            if ckind == 'array':
+                ct = pystubs.new_ctype(ex, L, N * isz, F['CT_ARRAY'], itemdescr=item, stuff=ptr, length=N)
+            else:
+                ct = ptr
+            D_ = z3.BitVec('c_data', 64)
+            cd = pystubs.new_cdata(ex, L, ct, D_)
+            S = z3.BitVec('size', 64)
+            ex.assume(z3.And(S >= 0, S <= (1 << 40)))
+            given = ex.decide(z3.Bool('size_given'))
+
+            def parse(e, a_, k_, fmt, kw, *outs):
+                e.mem.store(outs[1], cd, 8)
+                if given:
+                    e.mem.store(outs[2], S, 8)
+                return 1
+            made = []
+
+            def mbnew(e, data, size, keepalive):
+                made.append((simp(data), simp(size), simp(keepalive)))
+                return py.new_opaque('minibuffer')
+            ex.stubs.update({'_PyArg_ParseTupleAndKeywords_SizeT': parse, 'PyArg_ParseTupleAndKeywords': parse, 'minibuffer_new': mbnew})
+            r = simp(ex.call('b_buffer_new', [0, py.new_opaque('args'), 0]))
+            inputs = {'array_length': N, 'size': S, 'size_given': z3.If(z3.Bool('size_given'), z3.BitVecVal(1, 8), z3.BitVecVal(0, 8))}
+            hutil.witness(chk, ex, label + (':explicit-size' if given else ':default-size'))
+            okk = is_c(r) and r != 0 and py.exc is None and len(made) == 1
+            hutil.discharge(chk, ex, label + ':buffer-created', okk, inputs)
+            if okk:
+                data, size, keep = made[0]
+                want = S if given else ((N * isz) if ckind == 'array' else z3.BitVecVal(isz, 64))
+                hutil.discharge(chk, ex, label + ':window-starts-at-the-cdata', bv(data, 64) == D_, inputs)
+                hutil.discharge(chk, ex, label + ':window-size==explicit-size-else-natural-size', bv(size, 64) == want, inputs,
+                                replay=lambda c: replay({'kind': 'buffer-new', 'ckind': ckind, 'itemsize': isz, 'n': min(c['array_length'], 64),
+                                                         'size': min(c['size'], 64), 'given': bool(c['size_given'])}))
+                hutil.discharge(chk, ex, label + ':cdata-kept-alive', keep == cd, inputs)
     elif what[0] == 'memmove':
         NB = what[1]
 
@@ -400,6 +455,9 @@ def run(chk):
         cases.append(P + (('from_buffer', 'open', isz),))
         cases.append(P + (('from_buffer', 'fixed', isz),))
     cases.append(P + (('from_buffer', 'pointer', 4),))
+    for ckind in ('array', 'pointer'):
+        for isz in (1, 4):
+            cases.append(P + (('buffer-new', ckind, isz),))
     cases.append(P + (('memmove', 4 if quick else 8),))
     chk.bounds = {'buffer size': '0..%d bytes (every size explored separately), any content' % NB,
                   'index / slice bounds': 'any Python int or None; step None, 1, 2, -1',
@@ -407,7 +465,7 @@ def run(chk):
                   'from_buffer': 'any exporter byte length, exporter item size 1..64, declared length 0..2^40, item sizes {1,2,4,8,12}',
                   'memmove': 'every (dst, src, n) inside a %d-byte region, cdata or Python-buffer destination' % (4 if quick else 8)}
     chk.outside = ['buffers longer than the bound (the code has no size-dependent branches beyond the clamping)',
-                   'non-contiguous exporters, PyObject_GetBuffer itself', 'ffi.buffer() size derivation (b_buffer_new)']
+                   'non-contiguous exporters, PyObject_GetBuffer itself', 'ffi.buffer() over var-sized structs and the size warning for owning cdata']
     chk.assume('CPython contracts: PySlice_Unpack/PySlice_AdjustIndices as in CPython 3.12, PyObject_GetBuffer/PyBuffer_Release '
                'export counting, memmove == copy through a temporary (libc)')
     irgen.backend()
